@@ -465,6 +465,16 @@ template <int C, int Rw, class T, glm::qualifier Q> static void t_elem(pbt::Ctx&
 	} else g.missing |= 1u << E_EQ;
 #undef OP
 #undef COP
+	// the scalar of a compound operator may be an element of the matrix itself (m += m[0][0]): the result must be the one obtained with
+	// an independent copy of that scalar (taking the operand by reference and updating columns in place would change it mid-way)
+	if constexpr (HAVE(K_ELEM, SI, E_CADD_S) && HAVE(K_ELEM, SI, E_CMUL_S)) {
+		const int ec = (int)(k.ec % C), er = (int)(k.er % Rw);
+		auto same = [&](const M& x, const M& e) { for (int i = 0; i < C; ++i) for (int r = 0; r < Rw; ++r) if (memcmp(&x[i][r], &e[i][r], sizeof(T)) != 0) return false; return true; };
+		{ M x = A, e = A; T s0 = A[ec][er]; e += s0; x += x[ec][er]; if (!same(x, e)) c.failk(std::string("m+=s/aliased-scalar/") + tqn<T, Q>() + "/mat" + std::to_string(C) + "x" + std::to_string(Rw), "m += m[%d][%d] differs from m += copy", ec, er); }
+		{ M x = A, e = A; T s0 = A[ec][er]; e -= s0; x -= x[ec][er]; if (!same(x, e)) c.failk(std::string("m-=s/aliased-scalar/") + tqn<T, Q>() + "/mat" + std::to_string(C) + "x" + std::to_string(Rw), "m -= m[%d][%d] differs from m -= copy", ec, er); }
+		{ M x = A, e = A; T s0 = A[ec][er]; e *= s0; x *= x[ec][er]; if (!same(x, e)) c.failk(std::string("m*=s/aliased-scalar/") + tqn<T, Q>() + "/mat" + std::to_string(C) + "x" + std::to_string(Rw), "m *= m[%d][%d] differs from m *= copy", ec, er); }
+		if constexpr (std::is_floating_point<T>::value) { M x = AN, e = AN; T s0 = AN[ec][er]; if (s0 != T(0)) { e /= s0; x /= x[ec][er]; if (!same(x, e)) c.failk(std::string("m/=s/aliased-scalar/") + tqn<T, Q>() + "/mat" + std::to_string(C) + "x" + std::to_string(Rw), "m /= m[%d][%d] differs from m /= copy", ec, er); } }
+	}
 	elem_finish(c, tqn<T, Q>(), k, g);
 }
 
